@@ -76,9 +76,9 @@ def gen_case(rng, i):
             if flow == "ttb" and "row" in ch:
                 ch["row"] = min(ch["row"], erows - 1)
             if rng.random() < 0.2:
-                ch["rowSpan"] = rng.randint(1, 3)
+                ch["rowSpan"] = rng.choice((1, 2, 3, -1))        # -1: Qt's "extend to the bottom edge"
             if rng.random() < 0.2:
-                ch["columnSpan"] = rng.randint(1, 3)
+                ch["columnSpan"] = rng.choice((1, 2, 3, -1))     # -1: "extend to the right edge"
         if rng.random() < 0.2:
             k2 = rng.choice((1, 1, 2))
             ch["alignment"] = [rng.choice(ALIGN) for _ in range(k2)]
